@@ -59,7 +59,7 @@ def kindname(v):
 
 
 def is_extension(t):
-    return t.startswith(("#", "~")) or re.fullmatch(r"-[0-9]+", t) is not None or re.fullmatch(r"[0-9]{16,}", t) is not None or t != t.lstrip()
+    return t.startswith(("#", "~")) or re.fullmatch(r"-[0-9]+", t) is not None or gen.over_limit(t) or t != t.lstrip()
 
 
 def same(a, b):
@@ -356,10 +356,10 @@ def run(spec, ctx):
         flag_history.run(ctx)
         return
     r = ctx.rng
-    names = [n for n in gen.ALL_NAMES if not re.fullmatch(r"[0-9]{16,}", n)]
+    names = [n for n in gen.ALL_NAMES if not gen.over_limit(n)]
     for i in range(spec["n"]):
         doc = gen.DocGen(r, profile=r.choice(["unique", "mixed", "lookalike"]), hostile=0.7, max_depth=r.randint(2, 4), fan=r.randint(2, 4), names=names if r.random() < 0.7 else None).value()
-        if any(re.fullmatch(r"[0-9]{16,}", k) for k in gen.doc_names(doc)):
+        if any(gen.over_limit(k) for k in gen.doc_names(doc)):
             continue
         allnodes = list(nodes(doc))
         for loc, val in allnodes:
